@@ -138,6 +138,40 @@ def mutate_tags(rng, t, adversarial):
     return [b"zz"]
 
 
+# The harness binary is copied to a private scratch path for the duration of the run: other engineers' trial scripts
+# remove /verif/harness/bin/*.<hash> while this check is still using it.
+_GVH = {"path": None, "dir": None}
+
+
+def gvh_private():
+    if _GVH["path"] is None:
+        _GVH["dir"] = C.scratch("gv-c20-bin")
+        _GVH["path"] = os.path.join(_GVH["dir"], "gvh_c20")
+        shutil.copy2(C.build_gvh("gvh_c20"), _GVH["path"])
+    return _GVH["path"]
+
+
+def run_gvh(args, lines=None, timeout=3600, extra_env=None):
+    e = C.env()
+    e["VERIF_REPO"] = C.REPO
+    if extra_env:
+        e.update(extra_env)
+    return subprocess.run([gvh_private()] + list(args), input=None if lines is None else "\n".join(lines) + "\n",
+                          capture_output=True, text=True, timeout=timeout, env=e)
+
+
+def run_gvh_lines(args, lines, extra_env=None):
+    p = run_gvh(args, lines, extra_env=extra_env)
+    if p.returncode != 0:
+        raise RuntimeError("gvh_c20 %s failed: %s" % (args, p.stderr[-3000:]))
+    out = p.stdout.split("\n")
+    if out and out[-1] == "":
+        out.pop()
+    if len(out) != len(lines):
+        raise RuntimeError("gvh_c20 %s answered %d lines for %d ops: %s" % (args, len(out), len(lines), p.stderr[-1000:]))
+    return out
+
+
 def nonprint_op(ops):
     """`cache nonprint <runes>`: the runes >= 0x80 occurring (as well-formed UTF-8) in the hex arguments of `ops` for which
     Go's strconv.IsPrint is false. unicode.IsPrint is a parameter of the Lean model (the theorems hold for any)."""
@@ -149,7 +183,7 @@ def nonprint_op(ops):
                     runes.update(ord(ch) for ch in bytes.fromhex(h).decode("utf-8", "ignore") if ord(ch) >= 0x80)
     if not runes:
         return "cache nonprint -"
-    p = C.run_gvh(["isprint", ",".join(str(r) for r in sorted(runes))], extra_env={"XDG_CACHE_HOME": "/tmp/gv-none"}, name="gvh_c20")
+    p = run_gvh(["isprint", ",".join(str(r) for r in sorted(runes))], extra_env={"XDG_CACHE_HOME": "/tmp/gv-none"})
     if p.returncode != 0:
         raise RuntimeError("gvh_c20 isprint failed: " + p.stderr[-500:])
     return "cache nonprint " + (p.stdout.strip() or "-")
@@ -294,7 +328,7 @@ def run_key_ties(chk, tier):
             owner.append((si, j))
     xdg = C.scratch("gv-c20-a")
     try:
-        impl = C.run_gvh_lines(["ops"], ops, extra_env={"XDG_CACHE_HOME": xdg}, name="gvh_c20")
+        impl = run_gvh_lines(["ops"], ops, extra_env={"XDG_CACHE_HOME": xdg})
     finally:
         shutil.rmtree(xdg, ignore_errors=True)
     # model: same lines, plus a `key` query per store/load line (model only) to classify collisions
@@ -377,7 +411,7 @@ def run_string_ties(chk, tier):
     ops.insert(0, nonprint_op(ops))
     xdg = C.scratch("gv-c20-s")
     try:
-        impl = C.run_gvh_lines(["ops"], ops, extra_env={"XDG_CACHE_HOME": xdg}, name="gvh_c20")
+        impl = run_gvh_lines(["ops"], ops, extra_env={"XDG_CACHE_HOME": xdg})
     finally:
         shutil.rmtree(xdg, ignore_errors=True)
     model = C.run_driver("C20", ops)
@@ -420,7 +454,7 @@ def run_faults(chk, tier):
     for (spec, masks, nrand) in jobs:
         xdg = C.scratch("gv-c20-f")
         try:
-            p = C.run_gvh(["faults", spec, masks, str(nrand), str(seed)] + strides.get(spec, []), extra_env={"XDG_CACHE_HOME": xdg}, name="gvh_c20", timeout=3000)
+            p = run_gvh(["faults", spec, masks, str(nrand), str(seed)] + strides.get(spec, []), extra_env={"XDG_CACHE_HOME": xdg}, timeout=3000)
         finally:
             shutil.rmtree(xdg, ignore_errors=True)
         if p.returncode != 0:
@@ -445,7 +479,7 @@ def run_crash(chk, tier):
     """SIGKILL at the N-th write / close / rename system call of a child process running Store."""
     if shutil.which("strace") is None:
         raise RuntimeError("strace not available")
-    gvh = C.gvh_path("gvh_c20")
+    gvh = gvh_private()
     cfg = Cfg(b"js", b"ecmascript", b"/goroot", b"/gopath", [b"a"], b"v1")
     bc = cfg.tokens().split() + ["-"]
     p, t = hx(b"example.org/crash"), "1700000000000000000"
@@ -575,7 +609,7 @@ def run_transparency(chk, tier):
             open(os.path.join(prog, "main.go"), "w").write(src)
 
             def build(mode):
-                p = C.run_gvh(["build", prog, mode] + extra, extra_env={"XDG_CACHE_HOME": xdg}, name="gvh_c20", timeout=600)
+                p = run_gvh(["build", prog, mode] + extra, extra_env={"XDG_CACHE_HOME": xdg}, timeout=600)
                 if p.returncode != 0:
                     raise RuntimeError("gvh_c20 build failed: " + p.stderr[-2000:])
                 return parse_build(p.stdout.strip().split("\n")[-1])
@@ -623,7 +657,7 @@ def run_transparency(chk, tier):
     # AST round trip: a Sources holding every node kind of go/ast, stored and loaded by the real cache
     xdg = C.scratch("gv-c20-r")
     try:
-        p = C.run_gvh(["roundtrip"], extra_env={"XDG_CACHE_HOME": xdg}, name="gvh_c20", timeout=600)
+        p = run_gvh(["roundtrip"], extra_env={"XDG_CACHE_HOME": xdg}, timeout=600)
     finally:
         shutil.rmtree(xdg, ignore_errors=True)
     if p.returncode != 0:
@@ -645,7 +679,7 @@ def run_transparency(chk, tier):
             open(os.path.join(work, nm, "main.go"), "w").write(src)
 
         def build2(nm, mode):
-            p = C.run_gvh(["build", os.path.join(work, nm), mode], extra_env={"XDG_CACHE_HOME": xdg}, name="gvh_c20", timeout=600)
+            p = run_gvh(["build", os.path.join(work, nm), mode], extra_env={"XDG_CACHE_HOME": xdg}, timeout=600)
             if p.returncode != 0:
                 raise RuntimeError("gvh_c20 build failed: " + p.stderr[-2000:])
             return parse_build(p.stdout.strip().split("\n")[-1])
@@ -687,7 +721,7 @@ def run(tier, seed):
     chk.assumptions = ["strings are bytes; the quoting model covers ASCII and bytes that cannot start a valid UTF-8 sequence",
                        "no concurrent writers in the model (temp names make concurrent Stores independent; not proved)",
                        "nil and empty BuildTags are the same configuration for the spec (the code keys them apart: harmless miss)"]
-    C.build_gvh("gvh_c20")
+    gvh_private()
     chk.proof = C.check_proofs("C20", THEOREMS, tier)
     import resource
     import time
@@ -706,6 +740,7 @@ def run(tier, seed):
     chk.extra["phase_wall_s"] = phases
     chk.extra["phase_child_cpu_s"] = cpu
     C.log("[C20] phases wall: %s  child cpu: %s" % (phases, cpu))
+    shutil.rmtree(_GVH["dir"], ignore_errors=True)
     return chk.finish()
 
 
